@@ -323,7 +323,8 @@ def specs(draw, loaders=LOADERS):
     T, N = draw(st.integers(1, 5)), draw(st.integers(1, 4))
     pool = ['Li', 'S', 'P'] if loader != 'gromacs' else ['Li', 'S', 'P', 'O']
     symbols = sorted(draw(st.lists(st.sampled_from(pool), min_size=N, max_size=N)), key=pool.index)
-    frames = [[[round(draw(st.floats(0.01, 0.99)), 4) for _ in range(3)] for _ in range(N)] for _ in range(T)]
+    lo, hi = draw(st.sampled_from([(0.01, 0.99), (0.01, 0.99), (-0.6, 1.6)])) if loader != 'gromacs' else (0.01, 0.99)  # unwrapped ions past a cell face
+    frames = [[[round(draw(st.floats(lo, hi)), 4) for _ in range(3)] for _ in range(N)] for _ in range(T)]
     spec = {'loader': loader, 'symbols': symbols, 'frames': frames, 'temperature': float(draw(st.sampled_from([100, 300, 650]))), 'time_step': float(draw(st.sampled_from([1.0, 2.0])))}
     if loader == 'gromacs':
         spec['lengths'] = [round(draw(st.floats(4, 9)), 3) for _ in range(3)]
@@ -351,7 +352,13 @@ def run_faults(case):
             raise Violation('cache-written', f'cache files after the first load: {cf}')
         path = os.path.join(fs.dir, cf[0])
         full = open(path, 'rb').read()
-        traj_equal(fs.load('base'), ref, 'second load (cache present)')
+        # what a caller does with a returned trajectory must not leak into later loads
+        gcall(lambda: first.displacements)
+        first.metadata['temperature'] = -1.0
+        second = fs.load('base')
+        if not isinstance(second, Raised) and (second is first or second.coords_are_displacement):
+            raise Violation('load-returns-fresh-trajectory', 'a second load returned the object (or representation) a caller had modified')
+        traj_equal(second, ref, 'second load (cache present, after the first result was used and modified)')
         n_faults = 0
         for f in case['faults']:
             kind = f['kind']
